@@ -91,54 +91,66 @@ type matCase struct {
 func (c *checker) mat(k *matCase) {
 	n, m := len(k.Cols[0]), len(k.Cols)
 	p := permFor(c.seed, c.line, n, 2)
-	data := mat.NewDense(n, m, nil)
+	rows := make([][]float64, n)
+	for i := range rows {
+		rows[i] = make([]float64, m)
+	}
 	for j, col := range k.Cols {
 		cp := permute(floats(col), p)
 		for i := range cp {
-			data.Set(i, j, cp[i])
+			rows[i][j] = cp[i]
 		}
 	}
 	w := permute(weights(k.W, k.Nilw), p)
-	ctx := fmt.Sprintf("cols=%v w=%v perm=%v", k.Cols, w, p)
-	check := func(name string, want [][]ev, sc int64, f func(dst *mat.SymDense)) {
-		if len(want) == 0 {
-			c.sum.Count("outside_domain_not_checked", 1)
-			return
-		}
-		for variant := 0; variant < 2; variant++ {
-			var dst mat.SymDense
-			if variant == 1 {
-				dst = *mat.NewSymDense(m, nil)
+	// the data matrix is an abstract matrix: every representation of it (reps.go) must give the
+	// values the specification printed; destinations: empty / pre-sized stale / window of a larger matrix
+	for ri, rp := range matReps(rows, p[0]+n+m) {
+		ctx := fmt.Sprintf("cols=%v w=%v perm=%v data as %s", k.Cols, w, p, rp.name)
+		sfx := repSfx(rp.name)
+		check := func(name string, want [][]ev, sc int64, f func(dst *mat.SymDense)) {
+			if len(want) == 0 {
+				c.sum.Count("outside_domain_not_checked", 1)
+				return
+			}
+			for di, d := range symDsts(m) {
+				// the compact representation meets every destination, the others two of the three
+				if ri > 0 && di == ri%3 {
+					continue
+				}
+				dst := d.dst
+				c.sum.Count("matrix_calls:"+rp.name+"/dst="+d.name, 1)
+				if !c.call(name, func() { f(dst) }) {
+					return
+				}
+				if r, _ := dst.Dims(); r != m {
+					c.fail("stat:"+name+":shape"+sfx, fmt.Sprintf("%s: result is %dx%d, want %dx%d: %s", name, r, r, m, m, ctx))
+					return
+				}
 				for i := 0; i < m; i++ {
-					for j := i; j < m; j++ {
-						dst.SetSym(i, j, 7) // stale content must be overwritten
+					for j := 0; j < m; j++ {
+						c.sum.Count("values", 1)
+						got := dst.At(i, j)
+						if !want[i][j].matches(got, sc) {
+							c.fail("stat:"+name+":value"+sfx, fmt.Sprintf("%s[%d][%d] %s, destination %s: got %.17g, specification (pairwise scalar definition) says %s",
+								name, i, j, ctx, d.name, got, want[i][j].String()))
+						}
+						if got != dst.At(j, i) {
+							c.fail("stat:"+name+":symmetry"+sfx, fmt.Sprintf("%s[%d][%d] != [%d][%d]: %s", name, i, j, j, i, ctx))
+						}
 					}
 				}
-			}
-			if !c.call(name, func() { f(&dst) }) {
-				return
-			}
-			if r, _ := dst.Dims(); r != m {
-				c.fail("stat:"+name+":shape", fmt.Sprintf("%s: result is %dx%d, want %dx%d: %s", name, r, r, m, m, ctx))
-				return
-			}
-			for i := 0; i < m; i++ {
-				for j := 0; j < m; j++ {
-					c.sum.Count("values", 1)
-					got := dst.At(i, j)
-					if !want[i][j].matches(got, sc) {
-						c.fail("stat:"+name+":value", fmt.Sprintf("%s[%d][%d] %s: got %.17g, specification (pairwise scalar definition) says %s",
-							name, i, j, ctx, got, want[i][j].String()))
-					}
-					if got != dst.At(j, i) {
-						c.fail("stat:"+name+":symmetry", fmt.Sprintf("%s[%d][%d] != [%d][%d]: %s", name, i, j, j, i, ctx))
-					}
+				if bad := rp.intact(); bad != "" {
+					c.fail("stat:"+name+":input-modified"+sfx, fmt.Sprintf("%s %s: %s", name, ctx, bad))
+				}
+				if bad := d.intact(); bad != "" {
+					c.fail("stat:"+name+":wrote-outside-dst"+sfx, fmt.Sprintf("%s %s, destination %s: %s", name, ctx, d.name, bad))
 				}
 			}
 		}
+		data := rp.m
+		check("CovarianceMatrix", k.Cov, k.Sc, func(dst *mat.SymDense) { gstat.CovarianceMatrix(dst, data, w) })
+		check("CorrelationMatrix", k.Corr, 16, func(dst *mat.SymDense) { gstat.CorrelationMatrix(dst, data, w) })
 	}
-	check("CovarianceMatrix", k.Cov, k.Sc, func(dst *mat.SymDense) { gstat.CovarianceMatrix(dst, data, w) })
-	check("CorrelationMatrix", k.Corr, 16, func(dst *mat.SymDense) { gstat.CorrelationMatrix(dst, data, w) })
 }
 
 // ---- family "roc" -----------------------------------------------------------
